@@ -1,47 +1,130 @@
 """Gen/SaveTxnConsts.v: constants of capellambse/filehandler/local.py:_tmpname (prefix, suffix,
-name length limit), parsed with ast.  Fails closed when the function no longer has the shape
-    prefix = "<str>"; suffix = "<str>"
-    name = filename.name[0 : <int> - (len(prefix) + len(suffix))]
-    return filename.with_name(f"{prefix}{name}{suffix}")
+name length limit), read from the tree under check with ast on every run.
+
+`_tmpname(filename)` must be a straight-line function whose result is
+    filename.with_name(<prefix> + filename.name[:<keep>] + <suffix>)
+where the concatenation may be written as an f-string, with `+` or with "".join(..), the pieces
+may be literals, locals that are bound once, or module-level constants that are bound once
+(resolved and folded by the static evaluator of gen_exs.Src: literals, `+ - *`, `len(..)` ...),
+and the slice may be written `[:k]` or `[0:k]`.  The model's parameters are prefix, suffix and
+limit := keep + len(prefix) + len(suffix)  (so that  limit - (len prefix + len suffix) = keep,
+which is how Model/SaveTxn.v:tmpname and the harness use it; the original source writes
+`255 - (len(prefix) + len(suffix))`).
+
+The result is cross-checked against the real function: the module is imported from the tree under
+check in a subprocess and `_tmpname` is called on names around the length limit.  Anything that
+cannot be determined with certainty, a disagreement, or a probe that cannot run raises `Shape`
+(fail closed).  Nothing is cached or defaulted.
 """
 from __future__ import annotations
 
 import ast
 import pathlib
 
+import gen_exs as G
+from gen_exs import Shape, _need
+
 OUTPUTS = ["SaveTxnConsts.v"]
 
+_PROBE = r'''
+import json, pathlib, sys
+repo, plan = sys.argv[1], json.load(sys.stdin)
+sys.path.insert(0, repo)
+import capellambse.filehandler.local as local
+out = {"modules": [local.__file__], "names": []}
+for n in plan["names"]:
+    try:
+        out["names"].append(str(local._tmpname(pathlib.PurePosixPath(n))))
+    except Exception as e:
+        out["names"].append("raised " + type(e).__name__)
+json.dump(out, sys.stdout)
+'''
 
-class Shape(Exception):
-    pass
+
+def _pieces(src: G.Src, e: ast.expr, fn, _d: int = 0) -> list[tuple[str, object]]:
+    """a string concatenation -> [("lit", str) | ("expr", node)]"""
+    _need(_d < 20, "_tmpname: expression too deep")
+    ok, v = src.try_ev(e, fn)
+    if ok:
+        _need(isinstance(v, str), "_tmpname: a piece of the new name is not a string")
+        return [("lit", v)]
+    if isinstance(e, ast.JoinedStr):
+        out = []
+        for p in e.values:
+            if isinstance(p, ast.Constant) and isinstance(p.value, str):
+                out.append(("lit", p.value))
+            else:
+                _need(isinstance(p, ast.FormattedValue) and p.conversion == -1 and p.format_spec is None,
+                      "_tmpname: f-string with conversion or format spec")
+                out += _pieces(src, p.value, fn, _d + 1)
+        return out
+    if isinstance(e, ast.BinOp) and isinstance(e.op, ast.Add):
+        return _pieces(src, e.left, fn, _d + 1) + _pieces(src, e.right, fn, _d + 1)
+    if (isinstance(e, ast.Call) and isinstance(e.func, ast.Attribute) and e.func.attr == "join" and len(e.args) == 1 and not e.keywords
+            and isinstance(e.args[0], (ast.Tuple, ast.List)) and src.try_ev(e.func.value, fn) == (True, "")):
+        return [x for p in e.args[0].elts for x in _pieces(src, p, fn, _d + 1)]
+    if isinstance(e, ast.Name) and e.id in src.bindings(fn) and e.id not in G.params_of(fn):
+        v, scope = src.value_of(e, fn)
+        _need(scope is fn, "_tmpname: unexpected scope")
+        return _pieces(src, v, fn, _d + 1)
+    return [("expr", e)]
 
 
 def extract(repo: pathlib.Path) -> dict:
-    tree = ast.parse((repo / "capellambse" / "filehandler" / "local.py").read_text())
-    fn = next((n for n in tree.body if isinstance(n, ast.FunctionDef) and n.name == "_tmpname"), None)
-    if fn is None:
-        raise Shape("_tmpname not found")
-    body = [s for s in fn.body if not (isinstance(s, ast.Expr) and isinstance(s.value, ast.Constant))]
-    if len(body) != 4:
-        raise Shape("_tmpname: expected 4 statements")
-    consts = {}
-    for s, name in zip(body[:2], ("prefix", "suffix")):
-        if not (isinstance(s, ast.Assign) and isinstance(s.targets[0], ast.Name) and s.targets[0].id == name
-                and isinstance(s.value, ast.Constant) and isinstance(s.value.value, str)):
-            raise Shape(f"_tmpname: {name} is not a string literal")
-        consts[name] = s.value.value
-    want = ast.dump(ast.parse("name = filename.name[0 : 255 - (len(prefix) + len(suffix))]").body[0])
-    s = body[2]
-    lim = None
-    for n in ast.walk(s):
-        if isinstance(n, ast.Constant) and isinstance(n.value, int) and n.value not in (0,):
-            lim = n.value
-    if lim is None or ast.dump(s) != want.replace("value=255", f"value={lim}"):
-        raise Shape("_tmpname: slice expression changed")
-    if ast.dump(body[3]) != ast.dump(ast.parse('return filename.with_name(f"{prefix}{name}{suffix}")').body[0]):
-        raise Shape("_tmpname: return expression changed")
-    consts["limit"] = lim
+    repo = pathlib.Path(repo)
+    src = G.Src(repo / "capellambse" / "filehandler" / "local.py")
+    fn = src.func("_tmpname")
+    a = fn.args
+    _need(len(a.posonlyargs + a.args) == 1 and not a.kwonlyargs and not a.vararg and not a.kwarg and not fn.decorator_list,
+          "_tmpname: expected exactly one parameter")
+    param = (a.posonlyargs + a.args)[0].arg
+    _need(len(src.bindings(fn)[param]) == 1, "_tmpname: the parameter is rebound")
+    body = G.body_of(fn)
+    _need(body and isinstance(body[-1], ast.Return) and body[-1].value is not None, "_tmpname: does not end with return <value>")
+    for s in body[:-1]:
+        tgt = s.targets[0] if isinstance(s, ast.Assign) and len(s.targets) == 1 else getattr(s, "target", None)
+        _need(isinstance(s, (ast.Assign, ast.AnnAssign)) and isinstance(tgt, ast.Name) and len(src.bindings(fn)[tgt.id]) == 1,
+              "_tmpname: not a straight-line function of single assignments")
+    _need(not any(isinstance(n, (ast.Return, ast.Yield, ast.YieldFrom, ast.Await, ast.NamedExpr, ast.Lambda)) for s in body[:-1] for n in ast.walk(s)),
+          "_tmpname: unexpected control flow")
+    ret = src.inline(body[-1].value, fn)
+    _need(isinstance(ret, ast.Call) and isinstance(ret.func, ast.Attribute) and ret.func.attr == "with_name"
+          and isinstance(ret.func.value, ast.Name) and ret.func.value.id == param and len(ret.args) == 1 and not ret.keywords
+          and not isinstance(ret.args[0], ast.Starred), "_tmpname: return expression changed")
+    parts = _pieces(src, ret.args[0], fn)
+    exprs = [i for i, (k, _v) in enumerate(parts) if k == "expr"]
+    _need(len(exprs) == 1, "_tmpname: the new name is not <prefix> + <part of the old name> + <suffix>")
+    i = exprs[0]
+    prefix = "".join(v for _k, v in parts[:i])
+    suffix = "".join(v for _k, v in parts[i + 1:])
+    sl = parts[i][1]
+    _need(isinstance(sl, ast.Subscript) and isinstance(sl.slice, ast.Slice) and sl.slice.step is None, "_tmpname: slice expression changed")
+    base = src.inline(sl.value, fn)
+    _need(isinstance(base, ast.Attribute) and base.attr == "name" and isinstance(base.value, ast.Name) and base.value.id == param,
+          "_tmpname: slice expression changed")
+    if sl.slice.lower is not None:
+        ok, lo = src.try_ev(sl.slice.lower, fn)
+        _need(ok and type(lo) is int and lo == 0, "_tmpname: slice expression changed")
+    _need(sl.slice.upper is not None, "_tmpname: slice without upper bound")
+    ok, keep = src.try_ev(sl.slice.upper, fn)
+    _need(ok and type(keep) is int and keep >= 0, "_tmpname: slice bound is not a non-negative constant")
+    _need("/" not in prefix and "/" not in suffix and "\0" not in prefix + suffix, "_tmpname: prefix/suffix contain a separator")
+    consts = {"prefix": prefix, "suffix": suffix, "limit": keep + len(prefix) + len(suffix)}
+    _cross_check(repo, consts, keep)
     return consts
+
+
+def _cross_check(repo: pathlib.Path, c: dict, keep: int) -> None:
+    def name(k: int) -> str:
+        return "".join(chr(ord("a") + j % 26) for j in range(k))
+    lengths = sorted({1, 2, max(keep - 1, 1), max(keep, 1), keep + 1, keep + 50})
+    names = [name(k) for k in lengths] + ["d/e/" + name(k) for k in lengths] + ["x.capella", "d/.hidden.tmp"]
+    got = G.run_probe(repo, {"names": names}, _PROBE)
+    _need(G._under(repo, got["modules"]), f"probe: module was not imported from {repo}")
+    for n, obs in zip(names, got["names"]):
+        d, _, b = n.rpartition("/")
+        exp = (d + "/" if d else "") + c["prefix"] + b[:keep] + c["suffix"]
+        _need(exp == obs, f"source and behaviour disagree on _tmpname({n[:40]!r}..): source says {exp[:60]!r}, the code does {obs[:60]!r}")
 
 
 def _coq_str(s: str) -> str:
@@ -56,3 +139,8 @@ def generate(repo: pathlib.Path) -> dict[str, str]:
         f"Definition TMP_PREFIX : str := {_coq_str(c['prefix'])}.",
         f"Definition TMP_SUFFIX : str := {_coq_str(c['suffix'])}.",
         f"Definition TMP_LIMIT : nat := {c['limit']}.", ""])}
+
+
+if __name__ == "__main__":
+    import os
+    print(generate(pathlib.Path(os.environ.get("VERIF_REPO", "/repo")))["SaveTxnConsts.v"])
